@@ -650,6 +650,8 @@ fn run_case(line: &str) -> Option<String> {
         ("direct", [c, acts]) => run_host(&mut DirectHost::new(&parse_cmd(c)?, false), &parse_actions(acts)?, false),
         // extended fragment (waker-retaining combinators: StreamBuilder::then_stream = flatten_unordered): no exact model
         ("ext", [c, acts]) => run_host(&mut DirectHost::new(&parse_cmd(c)?, false), &parse_actions(acts)?, false),
+        // modelled fragment, additionally judged by the completeness clause of the oracle
+        ("complete", [c, acts]) => run_host(&mut DirectHost::new(&parse_cmd(c)?, false), &parse_actions(acts)?, false),
         ("core", [prog, acts]) => run_host(&mut CoreHost::new(parse_prog(prog)?, false), &parse_actions(acts)?, false),
         ("bridge", [prog, acts]) => run_host(
             &mut BridgeHost::new(Box::new(Bin(Bridge::new(Core::new()))), parse_prog(prog)?, false),
@@ -872,7 +874,7 @@ fn gen(seed: u64, n: usize, profile: &str) {
                     }
                 }
                 h.push(list(vec![atom("poll")]));
-                list(vec![atom("ext"), c.sexp(), list(h)])
+                list(vec![atom("complete"), c.sexp(), list(h)])
             }
             "fanout" => {
                 // the plain two-stage chain stream(a).then_stream(|x| stream(b)): 9-24 items on the outer stream while the inner
